@@ -47,11 +47,12 @@ def syncHeads0 (acl : Acl) : List RawHead → List Entry → SyncOutcome
     else if !h.entry.hashOk then .err
     else syncHeads0 acl hs (h.entry :: acc)
 
-/-- a complete head written for another log is skipped before anything else is looked at -/
-def ownLog (id : Nat) (h : RawHead) : Bool := !h.complete || h.entry.logId == id
+/-- a complete head written for another log, or not signed by the identity it names, is skipped
+(whatever the other checks would say) -/
+def ownLog (id : Nat) (h : RawHead) : Bool := !h.complete || (h.entry.logId == id && h.entry.sigOk)
 
 /-- the repaired `Sync` of the store whose log has id `id`: as `syncHeads0`, after the heads written
-for another log have been skipped (skipping a head leaves the list built so far as it is, so it is
+for another log or carrying a bad signature have been skipped (skipping a head leaves the list built so far as it is, so it is
 the same as not having received it) -/
 def syncHeads (acl : Acl) (id : Nat) (hs : List RawHead) (acc : List Entry) : SyncOutcome :=
   syncHeads0 acl (hs.filter (ownLog id)) acc
